@@ -248,6 +248,34 @@ Section Build.
     end.
 End Build.
 
+(* LRTable.calc_conflicts_and_dynamic_terminals (tables/__init__.py:552-586): is
+   table.sr_conflicts / table.rr_conflicts non-empty *)
+Definition cells (tb : table) : list (list action) :=
+  flat_map (fun st => map snd (st_actions st)) tb.
+
+Definition sr_conflicts_of (tb : table) : bool :=
+  existsb (fun acts => match acts with
+                       | a :: _ :: _ => is_shift a || action_eqb a Accept
+                       | _ => false
+                       end) (cells tb).
+
+Definition reduce_is_empty (g : grammar) (a : action) : bool :=
+  match a with
+  | Reduce p => match get_prod g p with Some pr => is_nil (rhs pr) | None => false end
+  | _ => false
+  end.
+
+Definition rr_conflicts_of (g : grammar) (tb : table) : bool :=
+  existsb (fun acts => match acts with
+                       | a :: _ :: _ =>
+                           if is_shift a || action_eqb a Accept then false
+                           else
+                             let ne := length (filter (fun x => negb (reduce_is_empty g x)) acts) in
+                             let em := length (filter (reduce_is_empty g) acts) in
+                             (Nat.ltb 1 em) || (Nat.ltb 1 ne)
+                       | _ => false
+                       end) (cells tb).
+
 (* ------------------------------------------------------------------------- *)
 (* Parser.parse on an instance, with default error recovery.                      *)
 Inductive rec_result : Type :=
@@ -284,13 +312,20 @@ Section Rec.
   Definition step := lr_step g tb skipws next_token stop_id consume_input false.
   Definition look := lookahead skipws next_token false.
 
-  (* [errs] is self.errors *)
-  Fixpoint rec_run (fuel : nat) (s : lrstate) (errs : list (N * N)) : rec_result :=
+  (* [errs] is self.errors.  [budget]: number of semantic-action calls (one per shift and per
+     reduction) after which the user's action raises; None = never *)
+  Fixpoint rec_run (fuel : nat) (budget : option nat) (s : lrstate) (errs : list (N * N))
+    : rec_result :=
     match fuel with
     | O => RRAborted errs
     | S f =>
         match step s with
-        | Continue s' => rec_run f s' errs
+        | Continue s' =>
+            match budget with
+            | Some O => RRAborted errs
+            | Some (S b) => rec_run f (Some b) s' errs
+            | None => rec_run f None s' errs
+            end
         | Done (LROk t rp _ _) => RROk t rp errs
         | Done (LRSyntaxError pos st) =>
             if recovery then
@@ -302,7 +337,8 @@ Section Rec.
                   | Some (top, lay1, _) =>
                       match recover_scan (N.to_nat (in_len - e_pos top)) (e_state top) (e_pos top) with
                       | Some (p1, TTok y len) =>
-                          rec_run f (mkLR (set_pos top p1 :: below) (Some (y, len)) lay1 (l_trace s))
+                          rec_run f budget
+                                  (mkLR (set_pos top p1 :: below) (Some (y, len)) lay1 (l_trace s))
                                   (errs ++ [(pos, p1)])
                       | Some (p1, _) => RRDisambiguation p1 st (errs ++ [(pos, pos)])
                       | None => RRSyntaxError pos st
@@ -333,7 +369,8 @@ Record lr_subject : Type := mkLS {
 Section LRInst.
   Variable sub : lr_subject.
   Variable inp : pinput.
-  Variable fuel : nat.              (* driver steps before a user callback raises *)
+  Variable fuel : nat.
+  Variable budget : option nat.     (* action calls before the user's action raises *)
   Variable pos : N.
 
   Let c := ls_conf sub.
@@ -350,7 +387,7 @@ Section LRInst.
                          (next_token_of (pc_terms c) (rx_of inp) (in_len inp) (pc_stop c)
                                         (pc_consume c) (pc_lexdis c) (pc_tb c))
                          (pc_stop c) (pc_consume c) (in_len inp) (ls_recovery sub)
-                         fuel (lr_init pos) errs0 in
+                         fuel budget (lr_init pos) errs0 in
         match r with
         | RROk _ _ errs => (mkLI (Some errs) (li_in_recovery st) (li_stack st), r)
         | RRSyntaxError _ _ => (mkLI None (li_in_recovery st) (li_stack st), r)   (* del self.errors *)
@@ -443,8 +480,8 @@ Record world : Type := mkW {
 }.
 
 Inductive op : Type :=
-| OParseLR (inp : pinput) (fuel : nat) (pos : N)   (* sentence, non-sentence, recovery, or a
-                                                      callback raising after [fuel] steps *)
+| OParseLR (inp : pinput) (fuel : nat) (budget : option nat) (pos : N)
+    (* sentence, non-sentence, recovery, or an action raising after [budget] calls *)
 | OParseGLR (inp : pinput)
 | OBuild (glr slr ps pse : bool).                  (* another Parser/GLRParser on the grammar;
                                                       it may fail *)
@@ -458,8 +495,8 @@ Section History.
 
   Definition step_world (w : world) (o : op) : world :=
     match o with
-    | OParseLR inp fuel pos =>
-        mkW (w_g w) (fst (lr_parse_inst sub inp fuel pos (w_lr w))) (w_glr w)
+    | OParseLR inp fuel budget pos =>
+        mkW (w_g w) (fst (lr_parse_inst sub inp fuel budget pos (w_lr w))) (w_glr w)
     | OParseGLR inp =>
         mkW (w_g w) (w_lr w) (fst (glr_parse_inst (glr_run inp) true (w_glr w)))
     | OBuild glr slr ps pse =>
@@ -488,8 +525,9 @@ Section History.
     end.
 
   (* what a user observes afterwards *)
-  Definition probe_lr (w : world) (inp : pinput) (fuel : nat) (pos : N) : rec_result :=
-    snd (lr_parse_inst sub inp fuel pos (w_lr w)).
+  Definition probe_lr (w : world) (inp : pinput) (fuel : nat) (budget : option nat) (pos : N)
+    : rec_result :=
+    snd (lr_parse_inst sub inp fuel budget pos (w_lr w)).
   Definition probe_glr (w : world) (inp : pinput) : glr_outcome :=
     snd (glr_parse_inst (glr_run inp) true (w_glr w)).
   Definition probe_build (w : world) (o : popts) : result (table * option table) :=
